@@ -599,6 +599,7 @@ func one(seed int64, index int, sz Sizes, s *wp.Sink, st *Stats) {
 	if c.N == 0 {
 		if a := runOps(file, c, false, []string{"r:-:6363"}); a[0] == "corrupt" {
 			st.Known++
+			viol("empty-table:range-iterator-reports-corruption", "empty table, NewIterator(Range{Start: \"\", Limit: \"cc\"}) reports corruption instead of yielding nothing: %s", a[0])
 		} else if a[0] != "it:" {
 			viol("empty-range", "empty table, range [\"\", \"cc\"): %s", a[0])
 		}
